@@ -145,7 +145,7 @@ func hsChunks(c *Case, inbound bool) ([][]byte, *hsMsg) {
 	if c.Kind == "raw" {
 		var ch [][]byte
 		for _, h := range c.Raw {
-			ch = append(ch, unhex(h))
+			ch = append(ch, rawBytes(h))
 		}
 		return ch, nil
 	}
